@@ -348,10 +348,13 @@ def ccsds_generator(
 
         # Fill buffer enough to parse a header
         while len(read_buffer) - current_pos < skip_header_bytes + RawPacketData.HEADER_LENGTH_BYTES:
-            result = read_bytes_from_source(buffer_read_size_bytes)
+            result = read_bytes_from_source(buffer_read_size_bytes) if read_bytes_from_source else b""
             if not result:  # If there is verifiably no more data to add, break
                 break
             read_buffer += result
+        if len(read_buffer) - current_pos < skip_header_bytes + RawPacketData.HEADER_LENGTH_BYTES:
+            # The source is exhausted and what is left cannot hold another packet header
+            break
         # Skip the header bytes
         current_pos += skip_header_bytes
         header_bytes = read_buffer[current_pos:current_pos + RawPacketData.HEADER_LENGTH_BYTES]
@@ -366,10 +369,13 @@ def ccsds_generator(
 
         # Fill the buffer enough to read a full packet, taking into account the user data length
         while len(read_buffer) - current_pos < n_bytes_packet:
-            result = read_bytes_from_source(buffer_read_size_bytes)
+            result = read_bytes_from_source(buffer_read_size_bytes) if read_bytes_from_source else b""
             if not result:  # If there is verifiably no more data to add, break
                 break
             read_buffer += result
+        if len(read_buffer) - current_pos < n_bytes_packet:
+            # The source is exhausted part-way through a packet; never yield an incomplete packet
+            break
 
         # Consider it a counted packet once we've verified that we have read the full packet and parsed the header
         # Update the number of packets and bytes parsed
